@@ -315,7 +315,7 @@ var profC04 = profile{
 	tweak: func(t *rapid.T, c *harness.Config) {
 		c.LockAfter = rapid.IntRange(1, 6).Draw(t, "lockafter4")
 		c.LockWindowS = pick(t, "win", 20, 60, 300, 3600, 86400)
-		c.LockDurS = pick(t, "dur", 5, 30, 600, 43200, 172800)
+		c.LockDurS = pick(t, "dur", 5, 30, 600, 43200, 172800, 7889400000)
 		c.OneTimeTOTP = chance(t, "onetime4", 50)
 		c.EmailAuth = false
 		c.Middleware = ""
@@ -323,6 +323,10 @@ var profC04 = profile{
 			a := &c.Accounts[i]
 			a.Unconfirmed = false
 			a.Locked = chance(t, "seedlocked", 10)
+			if i == 0 && chance(t, "oddhash", 20) {
+				// a stored password bcrypt cannot even parse: every password typed against it is a failed attempt
+				a.HashKind = pick(t, "hashkind", "empty", "md5", "sha256crypt", "trunc")
+			}
 			if i == 1 {
 				if c.HasSetup("totp") {
 					a.TOTP = true
